@@ -271,6 +271,10 @@ def run(prog: Program, ctx: Ctx) -> None:  # noqa: PLR0912,PLR0915
         ("a.b.c", ["<scope>", "a", "b"], "pkg.mod.a.b.c"),
         ("a.b.c.d", ["<scope>", "a", "b", "c"], "pkg.mod.a.b.c.d"),
         ("unknown.x", ["<scope>", "unknown"], "unknown.x"),
+        # what follows a call or a subscript is an attribute of its *result*: those segments chain among themselves and never get the callee's path
+        ("f(a).b.c", ["<scope>", "<scope>", "None", "b"], "b.c"),
+        ("a[0].b", ["<scope>", "None"], "b"),
+        ("f(a).b", ["<scope>", "<scope>", "None"], "b"),
     ):
         node = ast.parse(src, mode="eval").body
         try:
@@ -308,6 +312,12 @@ def run(prog: Program, ctx: Ctx) -> None:  # noqa: PLR0912,PLR0915
     src = ('"""Doc."""\nclass Meta: ...\ndef register(c): return c\nimport fields\n@register\nclass Model(Meta, fields.Field):\n    class Meta: ...\n'
            '    register = 1\n    fields = ()\n    def wrap(f): return f\n    @wrap\n    def method(self): ...\n'
            '    class Nested(Meta):\n        class Meta: ...\n')
+    def canon(e):
+        try:
+            return ex.it.getattr(e, "canonical_path")
+        except Raised as r:
+            return f"raises {r.exc}"
+
     res = ex.visit(src)
     gmf = prog.function("_griffe.agents.visitor.Visitor.visit_classdef")
     if isinstance(res, str):
@@ -315,12 +325,6 @@ def run(prog: Program, ctx: Ctx) -> None:  # noqa: PLR0912,PLR0915
     else:
         got, _ev = res
         model, nested, method = got["m.Model"]["obj"], got["m.Model.Nested"]["obj"], got["m.Model.method"]["obj"]
-
-        def canon(e):
-            try:
-                return ex.it.getattr(e, "canonical_path")
-            except Raised as r:
-                return f"raises {r.exc}"
 
         seen_ = {
             "bases of Model": [canon(b) for b in model.attrs["bases"]],
@@ -332,4 +336,12 @@ def run(prog: Program, ctx: Ctx) -> None:  # noqa: PLR0912,PLR0915
                  "decorators of Model.method": ["m.Model.wrap"]}
         for k_, v_ in want_.items():
             ctx.ob("R10", f"class-statement-scope|{k_}", seen_[k_] == v_, f"{k_}: {seen_[k_]}; Python evaluates them to {v_}", where(gmf))
+    # a name imported and then bound again: uses of the name resolve to the later binding, whatever can be said about the import's target
+    res2 = ex.visit('"""Doc."""\nfrom ext import Thing\nfrom ext import Other\nThing = dict\nclass K:\n    from ext import Inner\n    Inner = int\n    y: Inner = 2\nx: Thing = 1\nz: Other = 3\n')
+    if isinstance(res2, str):
+        ctx.ob("R10", "rebound-import", False, f"visiting the sample module {res2}", where(gmf))
+    else:
+        got2 = {p_: canon(res2[0][p_]["obj"].attrs.get("annotation")) for p_ in ("m.x", "m.K.y", "m.z")}
+        want2 = {"m.x": "m.Thing", "m.K.y": "m.K.Inner", "m.z": "ext.Other"}
+        ctx.ob("R10", "rebound-import", got2 == want2, f"`from ext import Thing` then `Thing = dict` (module and class level), annotations naming them: {got2}; Python binds {want2}", where(gmf))
 
